@@ -39,6 +39,15 @@ def run(ctx, out):
             for j in range(len(a.trigger)):
                 ops.append(G.op_line(cfg, calls, G.script_str(cfg, q, {(0, j): "stall"})))
                 meta.append((cfg, calls, f"chatty-stall@{j}", 1))
+    # a LATE answer instead of silence: the terminal pauses 7 s before every packet and 70 s before item j, then carries on
+    for calls, mx in HISTORIES:
+        for t in ((15, 0) if "readcard" in calls else (15,)):
+            cfg = G.default_cfg(max=mx, timeout=t)
+            q = chatty(cfg)
+            a = baseline(spec, cfg, calls, q)
+            for j in range(len(a.trigger)):
+                ops.append(G.op_line(cfg, calls, G.script_str(cfg, q, {(0, j): "late:9"}) + " gap=7"))
+                meta.append((cfg, calls, f"late@{j}", 1))
     # a terminal that falls silent at item j and stays silent at the same place of the retried exchange on every later connection:
     # the retry budget of THAT exchange has to end the call
     for calls, mx in HISTORIES:
@@ -112,7 +121,7 @@ def run(ctx, out):
     # the packet time-out `timeout + 2`: 1 s for the values from 1 on; with the value 0 a pause of 1 s IS the time-out, a tie)
     run_histories(ctx, out, [h for h in healthy if h[0]["timeout"] in (1, 2, 255)], "healthy but slow terminal x read_card_timeout", gap=1)
     out.count("healthy terminal x read_card_timeout", len(healthy))
-    out.rule = ("a stall (terminal silent, connection open) at EVERY item of every exchange of 5 call histories (handshake included) x read_card_timeout in {0,1,15,253,254,255} (thorough: 0..255); the same against a chatty terminal (two intermediate statuses before every final packet: stalls BETWEEN two reply packets of an exchange); the same with the terminal silent at that place of the retried exchange on all 1500 later connections (a client without a retry budget then needs more than the one-virtual-day watchdog) (the retry budget of each exchange must end the call); the single stalls again with a terminal that pauses 5 s before every packet (reconnect handshakes of 20 s); stalled connects, "
+    out.rule = ("a stall (terminal silent, connection open) at EVERY item of every exchange of 5 call histories (handshake included) x read_card_timeout in {0,1,15,253,254,255} (thorough: 0..255); the same against a chatty terminal (two intermediate statuses before every final packet: stalls BETWEEN two reply packets of an exchange); the same with the terminal silent at that place of the retried exchange on all 1500 later connections (a client without a retry budget then needs more than the one-virtual-day watchdog) (the retry budget of each exchange must end the call); a late answer (70 s) at every item of a chatty terminal pausing 7 s before every packet; the single stalls again with a terminal that pauses 5 s before every packet (reconnect handshakes of 20 s); stalled connects, "
                 "stalls during registration on consecutive connections, a terminal that is mute for ever (70 connections); a terminal that reports a pending pre-authorisation at every query and never completes its reversal. Oracle: every call returns (no hang under a one-virtual-day watchdog, no panic) within "
                 "6 x 20 x (60 + 2 + 5 x max(60, timeout+2)) virtual seconds; implementation = model EXACTLY in results, traffic and virtual time stamps (so a time-out that overflowed or collapsed to 0 would show); plus every history containing read_card against a HEALTHY terminal for read_card_timeout in {0,1,2,3,15,100,127,128,253,254,255} (thorough: 0..255), and for {1,2,255} against a healthy terminal that pauses 1 s before every packet: results and traffic = specification")
     out.samples = [ops[7][:400], {"op": ops[-1][:300], "impl": impl[-1][:300]}]
